@@ -56,6 +56,27 @@ type heldResult struct {
 
 var held []heldResult
 
+// strings returned by the library are kept the same way (the very string values, which may point into memory the
+// library still owns): a later call must not change a string that was returned earlier
+type heldString struct{ s, snap, from string }
+
+var (
+	heldS  []heldString
+	heldMu sync.Mutex
+)
+
+func holdS(from, s string) {
+	if len(s) == 0 {
+		return
+	}
+	heldMu.Lock()
+	defer heldMu.Unlock()
+	if len(heldS) >= 64 {
+		heldS = heldS[1:]
+	}
+	heldS = append(heldS, heldString{s, strings.Clone(s), from})
+}
+
 func hold(from string, bs ...[]byte) {
 	for _, b := range bs {
 		if len(b) == 0 {
@@ -70,6 +91,15 @@ func hold(from string, bs ...[]byte) {
 
 // heldChanged reports the first kept result that no longer holds what it held
 func heldChanged() (string, bool) {
+	heldMu.Lock()
+	for i, h := range heldS {
+		if h.s != h.snap {
+			heldS = append(heldS[:i:i], heldS[i+1:]...)
+			heldMu.Unlock()
+			return "changed:a string returned by an earlier call changed from " + hx([]byte(h.snap)) + " to " + hx([]byte(h.s)), true
+		}
+	}
+	heldMu.Unlock()
 	for i, h := range held {
 		if string(h.b) != h.snap {
 			held = append(held[:i:i], held[i+1:]...)
@@ -131,10 +161,14 @@ func run2(f []string) (string, bool) {
 				if err != nil {
 					fmt.Fprintf(&sb, "%d:err;", pos)
 				} else {
+					holdS("RandomSecret", s)
 					fmt.Fprintf(&sb, "%d:%s;", pos, s)
 				}
 			}
 		})
+		if msg, bad := heldChanged(); bad {
+			return msg, true
+		}
 		return sb.String(), true
 	case "randconc":
 		// randconc <stream hex> <goroutines> <calls each>: interleaved calls; every result must be the
